@@ -1349,6 +1349,50 @@ pub fn run(out: &mut Out, tier: &str, seed: u64, prop: &str) {
                         _ => out.oracle_fail("C05", "serializing a marker field with the marker::ser helpers fails / panics", input.clone()),
                     }
                     out.stat("c05.ser_helpers");
+                    // conversions between a marker and its contents
+                    match m.contents() {
+                        Some(c) => {
+                            let r: &MarkerTree = c.as_ref();
+                            if MarkerTree::from(c.clone()) != m || MarkerTree::from(Some(c.clone())) != m || *r != m {
+                                out.oracle_fail("C05", "MarkerTree::from(contents) / from(Some(contents)) / contents.as_ref() is not the marker", input.clone());
+                            }
+                        }
+                        None => if MarkerTree::from(None::<pep508_rs::MarkerTreeContents>) != m { out.oracle_fail("C05", "MarkerTree::from(None) is not TRUE", input.clone()); },
+                    }
+                }
+                // the operator table as text: FromStr then Display is the canonical spelling, anything else is rejected
+                for (text, want) in [("==", Some("==")), ("!=", Some("!=")), (">", Some(">")), (">=", Some(">=")), ("<", Some("<")), ("<=", Some("<=")), ("~=", Some("~=")), ("in", Some("in")),
+                    ("not in", Some("not in")), ("not  in", Some("not in")), ("not\tin", Some("not in")), ("not \t in", Some("not in")), ("notin", None), ("not", None), ("=", None), ("===", None), ("in ", None), ("", None), ("not\u{a0}in", Some("not in"))] {
+                    out.evaluations += 1;
+                    let got = pep508_rs::MarkerOperator::from_str(text).ok().map(|o| o.to_string());
+                    if got.as_deref() != want {
+                        out.oracle_fail("C05", &format!("MarkerOperator::from_str({text:?}) then Display gives {got:?}, expected {want:?}"), serde_json::json!({"operator_text": text}));
+                    }
+                }
+                // a single expression displayed and parsed back (`MarkerExpression::from_str`), incl. the in-list form that
+                // only the typed constructor makes
+                let mut exprs: Vec<pep508_rs::MarkerExpression> = Vec::new();
+                for it in items.iter().take(if big { 300 } else { 80 }) { for c in it.tree.to_dnf() { exprs.extend(c); } }
+                for k in 0..3usize { for neg in [false, true] { for vs in [vec!["3.8"], vec!["3.8", "3.9.1"], vec!["3.7.0", "3.10", "2.7.18"]] {
+                    if let Some(x) = (Term::VI(k, neg, vs.iter().map(|v| v.to_string()).collect())).expr() { exprs.push(x); }
+                } } }
+                for x in exprs {
+                    out.evaluations += 1;
+                    let text = x.to_string();
+                    let want = MarkerTree::expression(x.clone());
+                    let input = serde_json::json!({"expression_text": text});
+                    match catch_unwind(AssertUnwindSafe(|| (pep508_rs::MarkerExpression::from_str(&text), MarkerTree::from_str(&text)))) {
+                        Ok((Ok(back), Ok(tree))) => {
+                            let back_tree = back.map(MarkerTree::expression).unwrap_or(MarkerTree::TRUE);
+                            let deprecated = text.contains("python_implementation") && false;
+                            if (back_tree != want || tree != want) && !want.is_false() && !deprecated && !crate::req::marker_equiv(&tree, &want, 5) {
+                                out.oracle_fail("C05", "a displayed expression parses (MarkerExpression::from_str / MarkerTree::from_str) to another marker", input);
+                            }
+                        }
+                        Ok(_) => out.oracle_fail("C05", "a displayed expression does not parse", input),
+                        Err(_) => out.oracle_fail("C05", "panic while parsing a displayed expression", input),
+                    }
+                    out.stat("c05.expression_roundtrip");
                 }
             }
             for it in &items {
